@@ -1,8 +1,8 @@
 #!/bin/bash
 # stage and evaluate one round-3 (bug hunter) seed: stage_r3.sh <agent n> <seed m> <property>
 cd /verif
-src=/tmp/bh-$1/seed$2
-id=$3-r3-bh$1-s$2
+src=${SRC_PREFIX:-/tmp/bh}-$1/seed$2
+id=$3-${TAG:-r3-bh}$1-s$2
 [ -f $src/patch.diff ] || { echo "no patch in $src"; exit 0; }
 mkdir -p seeded/$id; cp $src/patch.diff $src/demo.py $src/notes.txt seeded/$id/ 2>/dev/null
 /venv/bin/python tools/seed_eval.py seeded/$id $id $3 > /tmp/seed-eval-$id.log 2>&1
